@@ -53,6 +53,7 @@ pub fn tx_as_dyn_mut<'a, 'b>(x: &'a mut StorageTransaction<'b>) -> (r: &'a mut d
 //@   replace "Box::new(merged)" => "vx_box_merge(merged)"
 //@   replace_re? "if (?P<A>\\w+) > (?P<B>\\w+) =>" => "if *\\g<A> > *\\g<B> =>"
 //@   begin let ghost lo = opt_view(start); let ghost hi = opt_view(end); proof { axiom_vec_u8_cmp_lex(); }
+//@   before "let local_raw = self.local_state.range(bounds);" let ghost gb = bounds; proof { axiom_brange_pre_vec_u8(bounds); assert(bview(bounds.0) == lo_of(lo) && bview(bounds.1) == hi_of(hi)); match (gb.0, gb.1) { (core::ops::Bound::Included(a), core::ops::Bound::Excluded(b)) => { assert(a@ == lo->0 && b@ == hi->0); lemma_lex_total(lo->0, hi->0); if lex_lt(lo->0, hi->0) { lemma_lex_asym(lo->0, hi->0); } lemma_lex_irrefl(lo->0); assert(vstd::std_specs::cmp::PartialOrdSpec::partial_cmp_spec(&a, &b) == Some(lex_cmp(a@, b@))); assert(!lex_lt(hi->0, lo->0)); }, _ => {} } assert(bounds_in_order(bview(bounds.0), bview(bounds.1))); }
 //@   after "let local_raw = self.local_state.range(bounds);" proof { axiom_brange_vec_u8(self.local_state@, bounds, local_raw.remaining()); lemma_brange_is_lrange(lview(local_raw.remaining()), self.local_state@, lo, hi); lemma_lrange_reverse(lview(local_raw.remaining()), self.local_state@, lo, hi); lemma_lview_reverse(local_raw.remaining()); }
 //@   before "DeltaIter::boxed(iter::empty())" proof { assert(lo is Some && hi is Some); assert(start@ == lo->0 && end@ == hi->0); lemma_lex_total(lo->0, hi->0); assert(lex_lt(hi->0, lo->0)); lemma_inverted_empty(self.local_state@, lo->0, hi->0, order); }
 //@   before "let base = self.storage.range(start, end, order);" proof { if local.remaining().len() == 0 { assert(lview(local.remaining()) =~= Seq::<LItem>::empty()); } assert(is_lrange_of(lview(local.remaining()), self.local_state@, lo, hi, order)); }
@@ -122,6 +123,19 @@ pub proof fn lemma_lview_reverse(s: Seq<(&Vec<u8>, &Delta)>)
 // BTreeMap::range on the cache's delta map: exactly the entries within the bounds, ascending by the byte order of the keys   TRUSTED (std docs)
 pub axiom fn axiom_brange_vec_u8(m: Map<Vec<u8>, Delta>, range: (core::ops::Bound<Vec<u8>>, core::ops::Bound<Vec<u8>>), rem: Seq<(&Vec<u8>, &Delta)>)
     ensures brange_ok(m, range, rem) ==> is_brange_of(lview(rem), m, bview(range.0), bview(range.1));
+
+// ... and BTreeMap::range does not panic unless start > end, or start == end with both bounds excluded   TRUSTED (std docs)
+pub open spec fn bounds_in_order(lo: core::ops::Bound<Seq<u8>>, hi: core::ops::Bound<Seq<u8>>) -> bool {
+    match (lo, hi) {
+        (core::ops::Bound::Included(a), core::ops::Bound::Included(b)) => !lex_lt(b, a),
+        (core::ops::Bound::Included(a), core::ops::Bound::Excluded(b)) => !lex_lt(b, a),
+        (core::ops::Bound::Excluded(a), core::ops::Bound::Included(b)) => !lex_lt(b, a),
+        (core::ops::Bound::Excluded(a), core::ops::Bound::Excluded(b)) => lex_lt(a, b),
+        _ => true,
+    }
+}
+pub axiom fn axiom_brange_pre_vec_u8(range: (core::ops::Bound<Vec<u8>>, core::ops::Bound<Vec<u8>>))
+    ensures brange_pre::<Vec<u8>, (core::ops::Bound<Vec<u8>>, core::ops::Bound<Vec<u8>>)>(range) == bounds_in_order(bview(range.0), bview(range.1));
 
 // stand-in for Box<dyn Iterator<Item = (&Vec<u8>, &Delta)> + 'a>  (rule R7): an opaque iterator over the local deltas
 #[verifier::external_body]
